@@ -114,6 +114,17 @@ class DistributedSend(Taggable):
     def copy(self, **kwargs: Any) -> DistributedSend:
         return dataclasses.replace(self, **kwargs)
 
+    def __eq__(self, other: object) -> bool:
+        # Taggable.__eq__ compares tags only, whereas the (generated) hash
+        # covers all fields.
+        if self is other:
+            return True
+        return (isinstance(other, DistributedSend)
+                and self.dest_rank == other.dest_rank
+                and self.comm_tag == other.comm_tag
+                and self.tags == other.tags
+                and self.data == other.data)
+
     if TYPE_CHECKING:
         def replace_if_different(self, **kwargs: Any) -> Self:
             return self
